@@ -14,39 +14,44 @@ parameters: they are what the packet classes and reactors compute from
 `connection.context.protocol_version`.  This file defines that map from the TABULATED live code:
 
 * `Gen.cbPlay`/`sbPlay`/`cbLogin`/`sbLogin` (`Generated/Ids.lean`): `get_packets(ctx)` and
-  `get_id(ctx)` of every known version;
-* `Gen.*Layouts` (`Generated/Layouts.lean`): `get_definition(ctx)`;
+  `get_id(ctx)` for every known version (with the `supported` flag);
 * `Gen.cbPlayNames`/`cbLoginNames` (`Generated/VersionProfiles.lean`): class ↦ `packet_name`;
 * `Gen.playProbe`/`loginProbe` (same file): what the real `PlayingReactor.react` /
   `LoginReactor.react` and the `read`/`write` of the packets involved DID under every supported
-  version on reference inputs.
+  version on reference inputs;
+* `Gen.*Layouts` (`Generated/Layouts.lean`): `get_definition(ctx)` (`layoutAt`), used by the
+  layout theorems.
+
+A supported version's facts are ONE row of each table: `playRows`/`loginRows` put the i-th
+supported row of the clientbound table, of the serverbound table and the i-th probe row side by
+side (all three lists are in chronological order; `profileOfRow` refuses a row whose three
+version numbers differ).
 
 What mirrors which Python:
 
-* `dispatchOf f name` — `PacketReactor.__init__` (`connection.py`, `self.clientbound_packets =
-  {packet.get_id(context): packet for packet in get_clientbound_packets(context)}`) followed by the
-  tests `packet.packet_name == "…"` of `react`: the reaction named `name` is triggered by THE class
-  of the row with that `packet_name`, under its id.  `none` when there is no such class or more than
-  one, or its id is missing/negative.
-* `kaLongOf` — `AbstractKeepAlivePacket.get_definition` (`keep_alive_packet.py:10-13`): `Long` or
-  `VarInt`.  `PlayWire.readKeepAlive` (clientbound `read`) and `PlayWire.replyFields` (serverbound
-  `write_fields`) use ONE flag; `profileOfFacts` therefore demands that the clientbound and the
-  serverbound class have the same layout.
-* `posFlagsOf` — `PlayerPositionAndLookPacket.get_definition`
-  (`player_position_and_look_packet.py:29-40`): the six fixed fields, `teleport_id` (VarInt) from
-  107 on, `dismount_vehicle` (Boolean) from 755 on.
-* `PlayFacts.…`/`playOk` — the second, independent test `protocol_later_eq(107)` in
-  `PlayingReactor.react` (`connection.py:814`) is not visible in any table; it is observed by the
-  probe (`ackKind`) and compared with the layout flag in `playOk`.
-* serverbound ids — the reactor instantiates `serverbound.play.KeepAlivePacket`,
+* `dispatchIn cb names name` — `PacketReactor.__init__` (`connection.py`, `self.clientbound_packets
+  = {packet.get_id(context): packet for packet in get_clientbound_packets(context)}`) followed by
+  the tests `packet.packet_name == "…"` of `react`: the reaction named `name` is triggered by THE
+  class of the row with that `packet_name`, under its id.  `none` when there is no such class or
+  more than one, or its id is missing/negative.
+* ids of the replies — the reactor instantiates `serverbound.play.KeepAlivePacket`,
   `TeleportConfirmPacket`, `PositionAndLookPacket` by CLASS (`connection.py:809-826`), so these are
-  looked up by class name in `Gen.sbPlay`; `TeleportConfirmPacket` is only registered (and only
-  used) from 107 on — for older versions `teleportConfirmSb` is the unused value 0.
-* `idsAt`/`lsIdAt` — `EncryptionResponsePacket.get_id`, `PluginResponsePacket.get_id`,
-  `LoginStartPacket.get_id` (`serverbound/login/__init__.py`).  Before 385 no plugin response is
-  registered and no plugin request can be decoded (`clientbound/login/__init__.py:16-19`); the id
-  recorded there is the one the class WOULD be written with (observed by the probe), which the
-  login model never uses on a script Python can decode.
+  looked up by class name in the serverbound row; `TeleportConfirmPacket` is only registered (and
+  only used) from 107 on — for older versions `teleportConfirmSb` is the unused value 0.
+* the three switches — BEHAVIOUR, as observed by the probe:
+  `kaLong` = `KeepAlivePacket.read` consumed a signed Long and the reply was written as those eight
+  bytes (both must agree; `keep_alive_packet.py:10-13`); `newer107`/`dismount` = what
+  `PlayerPositionAndLookPacket.read` consumed (`player_position_and_look_packet.py:29-40`).
+  The SECOND, independent test `protocol_later_eq(107)` in `PlayingReactor.react`
+  (`connection.py:814`) is the probe's `ackKind`; `rowOk` demands that it agrees with the reader's.
+  The declared layouts (`get_definition`) are tied to the same switch points in
+  `Props/VersionProfiles.lean` (`layouts_at`).
+* `loginProfileOfRow` — `EncryptionResponsePacket.get_id`, `PluginResponsePacket.get_id`,
+  `LoginStartPacket.get_id` (`serverbound/login/__init__.py`) and the clientbound login ids.
+  Before 385 no plugin response is registered and no plugin request can be decoded
+  (`clientbound/login/__init__.py:16-19`); the id recorded there is the one the class WOULD be
+  written with (the probe's `plugRespId`), which the login model never uses on a script Python can
+  decode.
 
 Everything here is computable data and Bool-valued checks; the kernel evaluates them on every
 supported version in `Lemmas/VersionProfiles.lean`.
@@ -60,10 +65,6 @@ abbrev Ents := List (String × Option Int)
 /-- A declarative layout: `(field name, wire type)` in order. -/
 abbrev Layout := List (String × WType)
 
-/-- The row of a generated id table for version `v`. -/
-def rowAt (tab : List Gen.IdRow) (v : Nat) : Option Ents :=
-  (tab.find? (fun r => r.1 == v)).map (·.2.2)
-
 /-- The id a row registers for class `cls` (`none`: not registered, or `get_id` gave no
 non-negative integer). -/
 def idIn (row : Ents) (cls : String) : Option Nat :=
@@ -71,7 +72,11 @@ def idIn (row : Ents) (cls : String) : Option Nat :=
   | some (some i) => if 0 ≤ i then some i.toNat else none
   | _ => none
 
-/-- `cls.get_definition(ctx)` under version `v` (`none`: hand-written codec or not defined). -/
+/-- How many entries of a row carry id `i`. -/
+def countId (row : Ents) (i : Nat) : Nat := (row.filter (fun e => e.2 == some (i : Int))).length
+
+/-- `cls.get_definition(ctx)` under version `v` (`none`: hand-written codec, or no definition):
+the layout of the first variant whose version list contains `v`. -/
 def layoutAt (tab : List Gen.LayoutRow) (cls : String) (v : Nat) : Option Layout :=
   match tab.lookup cls with
   | none => none
@@ -80,39 +85,13 @@ def layoutAt (tab : List Gen.LayoutRow) (cls : String) (v : Nat) : Option Layout
     | some x => x.1
     | none => none
 
-/-- How many entries of a row carry id `i`. -/
-def countId (row : Ents) (i : Nat) : Nat := (row.filter (fun e => e.2 == some (i : Int))).length
+/-- The classes whose `packet_name` is `name`. -/
+def classesNamed (names : List (String × String)) (name : String) : List String :=
+  (names.filter fun e => e.2 == name).map (·.1)
 
-/-- `e = .ok b` as a Bool. -/
-def isOk (e : Except Err Bool) (b : Bool) : Bool :=
-  match e with
-  | .ok x => x == b
-  | .error _ => false
-
-/-! ### play -/
-
-/-- Everything the tables say about the play state of one version. -/
-structure PlayFacts where
-  /-- `clientbound.play.get_packets(ctx)` with `get_id(ctx)`. -/
-  cb : Ents
-  /-- `serverbound.play.get_packets(ctx)` with `get_id(ctx)`. -/
-  sb : Ents
-  /-- class ↦ `packet_name` of the clientbound classes. -/
-  names : List (String × String)
-  /-- `get_definition(ctx)` of the clientbound / serverbound classes of the row. -/
-  cbLays : List (String × Option Layout)
-  sbLays : List (String × Option Layout)
-
-def playFactsAt (v : Nat) : Option PlayFacts := do
-  let cb ← rowAt Gen.cbPlay v
-  let sb ← rowAt Gen.sbPlay v
-  pure { cb := cb, sb := sb, names := Gen.cbPlayNames,
-         cbLays := cb.map fun e => (e.1, layoutAt Gen.cbPlayLayouts e.1 v),
-         sbLays := sb.map fun e => (e.1, layoutAt Gen.sbPlayLayouts e.1 v) }
-
-/-- The entries of the clientbound row whose class has `packet_name = name`. -/
+/-- The entries of a clientbound row whose class has `packet_name = name`. -/
 def namedIn (cb : Ents) (names : List (String × String)) (name : String) : Ents :=
-  cb.filter fun e => names.lookup e.1 == some name
+  cb.filter fun e => (classesNamed names name).contains e.1
 
 /-- THE class (and its id) the reactor's table dispatches to the reaction `name`. -/
 def dispatchIn (cb : Ents) (names : List (String × String)) (name : String) :
@@ -121,42 +100,33 @@ def dispatchIn (cb : Ents) (names : List (String × String)) (name : String) :
   | [(c, some i)] => if 0 ≤ i then some (c, i.toNat) else none
   | _ => none
 
-def PlayFacts.dispatchOf (f : PlayFacts) (name : String) : Option (String × Nat) :=
-  dispatchIn f.cb f.names name
+def zip3 {α β γ : Type} : List α → List β → List γ → List (α × β × γ)
+  | a :: as, b :: bs, c :: cs => (a, b, c) :: zip3 as bs cs
+  | _, _, _ => []
 
-def PlayFacts.cbLayout (f : PlayFacts) (cls : String) : Option Layout :=
-  (f.cbLays.lookup cls).bind id
+/-- The rows of an id table that belong to supported versions. -/
+def supportedRows (tab : List Gen.IdRow) : List Gen.IdRow := tab.filter (·.2.1)
 
-def PlayFacts.sbLayout (f : PlayFacts) (cls : String) : Option Layout :=
-  (f.sbLays.lookup cls).bind id
+/-! ### play -/
 
-/-- `AbstractKeepAlivePacket.get_definition`: which of its two layouts. -/
-def kaLongOf (l : Layout) : Option Bool :=
-  if l = [("keep_alive_id", .int .i64)] then some true
-  else if l = [("keep_alive_id", .varint)] then some false
-  else none
+/-- Everything the tables say about the play state of one supported version. -/
+structure PlayRow where
+  /-- `clientbound.play.get_packets(ctx)` with `get_id(ctx)`. -/
+  cb : Gen.IdRow
+  /-- `serverbound.play.get_packets(ctx)` with `get_id(ctx)`. -/
+  sb : Gen.IdRow
+  /-- what the real reactor did. -/
+  pr : Gen.PlayProbe
 
-/-- The six fields every clientbound position-and-look has. -/
-def posBase : Layout :=
-  [("x", .int .f64), ("y", .int .f64), ("z", .int .f64), ("yaw", .int .f32), ("pitch", .int .f32),
-   ("flags", .int .i8)]
+def PlayRow.v (r : PlayRow) : Nat := r.cb.1
 
-/-- `PlayerPositionAndLookPacket.get_definition`: (`teleport_id` present, `dismount_vehicle`
-present) — one of its three layouts. -/
-def posFlagsOf (l : Layout) : Option (Bool × Bool) :=
-  if l = posBase then some (false, false)
-  else if l = posBase ++ [("teleport_id", .varint)] then some (true, false)
-  else if l = posBase ++ [("teleport_id", .varint), ("dismount_vehicle", .bool)] then
-    some (true, true)
-  else none
+def playRowsOf (cb sb : List Gen.IdRow) (pr : List Gen.PlayProbe) : List PlayRow :=
+  (zip3 (supportedRows cb) (supportedRows sb) pr).map fun t => ⟨t.1, t.2.1, t.2.2⟩
 
-/-- The layouts the play model hard-codes: clientbound disconnect (`readDisconnect`), serverbound
-position-and-look and teleport confirm (`replyFields`). -/
-def discLayout : Layout := [("json_data", .string)]
-def echoLayout : Layout :=
-  [("x", .int .f64), ("feet_y", .int .f64), ("z", .int .f64), ("yaw", .int .f32),
-   ("pitch", .int .f32), ("on_ground", .bool)]
-def tcLayout : Layout := [("teleport_id", .varint)]
+/-- The live tables, row by row. -/
+def playRows : List PlayRow := playRowsOf Gen.cbPlay Gen.sbPlay Gen.playProbe
+
+def playRowAt (v : Nat) : Option PlayRow := playRows.find? (fun r => r.v == v)
 
 /-- The packet names `PlayingReactor.react` tests for and the play model reacts to. -/
 def reactedNames : List String := ["keep alive", "player position and look", "disconnect"]
@@ -165,35 +135,49 @@ def reactedNames : List String := ["keep alive", "player position and look", "di
 def othersOf (cb : Ents) (names : List (String × String)) : List (Nat × String) :=
   cb.filterMap fun e =>
     match names.lookup e.1, e.2 with
-    | some n, some i => if reactedNames.contains n then none else if 0 ≤ i then some (i.toNat, n) else none
+    | some n, some i =>
+      if reactedNames.contains n then none else if 0 ≤ i then some (i.toNat, n) else none
     | _, _ => none
 
-/-- The play profile the tables determine (`none`: they do not determine one — a reacted name
-without a unique class, an unrecognised layout, reader and writer of the keep-alive id
-disagreeing, a layout the model hard-codes being different, …). -/
-def profileOfFacts (f : PlayFacts) : Option Profile := do
-  let ka ← f.dispatchOf "keep alive"
-  let pos ← f.dispatchOf "player position and look"
-  let disc ← f.dispatchOf "disconnect"
-  let kaLong ← (f.cbLayout ka.1).bind kaLongOf
-  let kaLongSb ← (f.sbLayout "KeepAlivePacket").bind kaLongOf
-  let flags ← (f.cbLayout pos.1).bind posFlagsOf
-  let kaSb ← idIn f.sb "KeepAlivePacket"
-  let posLookSb ← idIn f.sb "PositionAndLookPacket"
-  let tc ← if flags.1 then idIn f.sb "TeleportConfirmPacket" else some 0
-  if kaLong = kaLongSb ∧ f.cbLayout disc.1 = some discLayout ∧
-      f.sbLayout "PositionAndLookPacket" = some echoLayout ∧
-      (flags.1 = true → f.sbLayout "TeleportConfirmPacket" = some tcLayout) then
+/-- The keep-alive width the real code used: reader and writer must agree. -/
+def kaLongOfProbe (pr : Gen.PlayProbe) : Option Bool :=
+  if pr.kaRead = 1 ∧ pr.kaWrite = 1 then some true
+  else if pr.kaRead = 0 ∧ pr.kaWrite = 0 then some false
+  else none
+
+/-- The optional fields the real `PlayerPositionAndLookPacket.read` consumed:
+(teleport id, dismount flag). -/
+def posFlagsOfProbe (pr : Gen.PlayProbe) : Option (Bool × Bool) :=
+  if pr.posRead = 0 then some (false, false)
+  else if pr.posRead = 1 then some (true, false)
+  else if pr.posRead = 2 then some (true, true)
+  else none
+
+/-- The id of the teleport confirm: looked up when the version has teleport ids, else the unused
+value 0 (`TeleportConfirmPacket` is not registered before 107). -/
+def tcOf (newer : Bool) (sb : Ents) : Option Nat :=
+  if newer then idIn sb "TeleportConfirmPacket" else some 0
+
+/-- The play profile one row determines (`none`: it does not determine one — the three version
+numbers differ, a reacted name without a unique class, reader and writer of the keep-alive id
+disagreeing, an id missing, …). -/
+def profileOfRow (names : List (String × String)) (r : PlayRow) : Option Profile := do
+  let ka ← dispatchIn r.cb.2.2 names "keep alive"
+  let pos ← dispatchIn r.cb.2.2 names "player position and look"
+  let disc ← dispatchIn r.cb.2.2 names "disconnect"
+  let kaLong ← kaLongOfProbe r.pr
+  let flags ← posFlagsOfProbe r.pr
+  let kaSb ← idIn r.sb.2.2 "KeepAlivePacket"
+  let posLookSb ← idIn r.sb.2.2 "PositionAndLookPacket"
+  let tc ← tcOf flags.1 r.sb.2.2
+  if r.sb.1 = r.v ∧ r.pr.v = r.v ∧ r.cb.2.1 = true ∧ r.sb.2.1 = true then
     some { kaCb := ka.2, kaSb := kaSb, posLookCb := pos.2, teleportConfirmSb := tc,
            posLookSb := posLookSb, disconnectCb := disc.2, kaLong := kaLong, newer107 := flags.1,
-           dismount := flags.2, others := othersOf f.cb f.names }
+           dismount := flags.2, others := othersOf r.cb.2.2 names }
   else none
 
 /-- Version ↦ play profile. -/
-def profileOf (v : Nat) : Option Profile := (playFactsAt v).bind profileOfFacts
-
-/-- The probe row of a version. -/
-def playProbeAt (v : Nat) : Option Gen.PlayProbe := Gen.playProbe.find? (fun r => r.v == v)
+def profileOf (v : Nat) : Option Profile := (playRowAt v).bind (profileOfRow Gen.cbPlayNames)
 
 /-- The id under which the profile knows a packet named "set compression". -/
 def setCompOf (P : Profile) : Option Nat :=
@@ -202,68 +186,86 @@ def setCompOf (P : Profile) : Option Nat :=
 /-- Each id the reactor reacts to is carried by exactly one class of the clientbound row (so the
 dict `{get_id: class}` holds that class under it whatever the set iteration order), and each id it
 writes by exactly one class of the serverbound row. -/
-def unshared (f : PlayFacts) (P : Profile) : Bool :=
-  countId f.cb P.kaCb == 1 && countId f.cb P.posLookCb == 1 && countId f.cb P.disconnectCb == 1 &&
-    countId f.sb P.kaSb == 1 && countId f.sb P.ackSb == 1
+def unshared (r : PlayRow) (P : Profile) : Bool :=
+  countId r.cb.2.2 P.kaCb == 1 && countId r.cb.2.2 P.posLookCb == 1 &&
+    countId r.cb.2.2 P.disconnectCb == 1 && countId r.sb.2.2 P.kaSb == 1 &&
+    countId r.sb.2.2 P.ackSb == 1
 
-/-- The switch points: the three flags are the comparisons of `ConnectionContext` with 339, 107 and
-755 (evaluated by the model of `protocol_later_eq` on the version tables `T`), and a play-state
-"set compression" is known exactly up to protocol 47. -/
-def flagsOk (T : Tables) (v : Nat) (P : Profile) : Bool :=
-  isOk (laterEq T v 339) P.kaLong && isOk (laterEq T v 107) P.newer107 &&
-    isOk (laterEq T v 755) P.dismount && isOk (earlierEq T v 47) (setCompOf P).isSome
+/-- No other known clientbound packet carries an id the reactor reacts to. -/
+def othersDisjoint (P : Profile) : Bool :=
+  P.others.all fun e => e.1 != P.kaCb && e.1 != P.posLookCb && e.1 != P.disconnectCb
 
-/-- What the real reactor did (`pr`) is what the profile says: same dispatch ids, the keep-alive
-read and echoed in the profile's width, the position-and-look read with the profile's optional
-fields, acknowledged by a teleport confirm exactly when the LAYOUT has a teleport id (the reactor's
-own version test agrees with the packet's), the replies written with the profile's ids. -/
-def behaviourOk (v : Nat) (P : Profile) (pr : Gen.PlayProbe) : Bool :=
-  pr.v == v && pr.kaCb == P.kaCb && pr.kaRead == (if P.kaLong then 1 else 0) && pr.kaSb == P.kaSb &&
-    pr.kaWrite == (if P.kaLong then 1 else 0) && pr.posCb == P.posLookCb &&
-    pr.posRead == (if P.dismount then 2 else if P.newer107 then 1 else 0) &&
-    pr.ackSb == P.ackSb && pr.ackKind == (if P.newer107 then 1 else 0) &&
-    pr.discCb == P.disconnectCb && pr.discKind == 1 && pr.setComp == setCompOf P
+/-- What the real reactor did is what the profile says: same dispatch ids; the position-and-look
+acknowledged by a teleport confirm exactly when its READER found a teleport id (the reactor's own
+version test agrees with the packet's); the replies written with the profile's ids; the
+disconnect reaction. -/
+def behaviourOk (P : Profile) (pr : Gen.PlayProbe) : Bool :=
+  pr.kaCb == P.kaCb && pr.kaSb == P.kaSb && pr.posCb == P.posLookCb && pr.ackSb == P.ackSb &&
+    pr.ackKind == (if P.newer107 then 1 else 0) && pr.discCb == P.disconnectCb &&
+    pr.discKind == 1 && pr.setComp == setCompOf P
 
-/-- All per-version play checks. -/
-def playOk (T : Tables) (v : Nat) (f : PlayFacts) (pr : Gen.PlayProbe) (P : Profile) : Bool :=
-  P.cbDistinct && P.sbDistinct && unshared f P && flagsOk T v P && behaviourOk v P pr &&
+/-- All per-row play checks. -/
+def rowOk (r : PlayRow) (P : Profile) : Bool :=
+  P.cbDistinct && P.sbDistinct && unshared r P && othersDisjoint P && behaviourOk P r.pr &&
     (!P.dismount || P.newer107) && P.teleportConfirmSb == 0
 
-/-- The check the kernel runs for one version of the live tables. -/
-def playCheck (v : Nat) : Bool :=
-  match playFactsAt v, playProbeAt v with
-  | some f, some pr =>
-    match profileOfFacts f with
-    | some P => playOk liveTables v f pr P
-    | none => false
-  | _, _ => false
+def playRowOk (names : List (String × String)) (r : PlayRow) : Bool :=
+  match profileOfRow names r with
+  | some P => rowOk r P
+  | none => false
+
+/-- `flags` is `false` before the (first) position of `b` in `vs` and `true` from it on; `b` occurs
+in `vs` and the lists have the same length. -/
+def stepUp : List Nat → List Bool → Nat → Bool
+  | v :: vs, f :: fs, b =>
+    if v == b then f && fs.all id && fs.length == vs.length else !f && stepUp vs fs b
+  | _, _, _ => false
+
+/-- `flags` is `true` up to and including the (first) position of `b` in `vs` and `false` behind
+it. -/
+def stepDown : List Nat → List Bool → Nat → Bool
+  | v :: vs, f :: fs, b =>
+    if v == b then f && fs.all (!·) && fs.length == vs.length else f && stepDown vs fs b
+  | _, _, _ => false
+
+/-- The switch points along the chronological list of supported versions: Long keep-alive ids from
+339 on, teleport ids from 107 on, the dismount flag from 755 on, and a play-state "set compression"
+packet up to 47. -/
+def playSwitchesOk (rows : List PlayRow) : Bool :=
+  let vs := rows.map (·.v)
+  stepUp vs (rows.map fun r => r.pr.kaRead == 1) 339 &&
+    stepUp vs (rows.map fun r => r.pr.posRead != 0) 107 &&
+    stepUp vs (rows.map fun r => r.pr.posRead == 2) 755 &&
+    stepDown vs (rows.map fun r => r.pr.setComp.isSome) 47
+
+/-- The whole play check: the rows are those of the supported versions, in order; every row
+determines a profile that passes `rowOk`; the switches are where they belong. -/
+def playTablesOk (T : Tables) (names : List (String × String)) (rows : List PlayRow) : Bool :=
+  rows.map (·.v) == T.supportedProtocols && rows.all (playRowOk names) && playSwitchesOk rows
 
 /-- A play-state "set compression" packet: known to the profile under that name.  The reaction of
 `PlayingReactor.react` to it (`connection.py:798-800`: switch threshold and compression for both
 directions from the next frame on) is NOT part of `Model/PlayWire.lean`; statements about Python
-must exclude it.  Only protocols up to 47 know such a packet (`flagsOk`). -/
+must exclude it.  Only protocols up to 47 know such a packet (`playSwitchesOk`). -/
 def isSetCompression : SrvPkt → Bool
   | .other _ name _ => name == "set compression"
   | _ => false
 
 /-! ### login -/
 
-/-- Everything the tables say about the login state of one version. -/
-structure LoginFacts where
-  cb : Ents
-  sb : Ents
-  names : List (String × String)
-  cbLays : List (String × Option Layout)
-  sbLays : List (String × Option Layout)
+structure LoginRow where
+  cb : Gen.IdRow
+  sb : Gen.IdRow
+  pr : Gen.LoginProbe
 
-def loginFactsAt (v : Nat) : Option LoginFacts := do
-  let cb ← rowAt Gen.cbLogin v
-  let sb ← rowAt Gen.sbLogin v
-  pure { cb := cb, sb := sb, names := Gen.cbLoginNames,
-         cbLays := cb.map fun e => (e.1, layoutAt Gen.cbLoginLayouts e.1 v),
-         sbLays := sb.map fun e => (e.1, layoutAt Gen.sbLoginLayouts e.1 v) }
+def LoginRow.v (r : LoginRow) : Nat := r.cb.1
 
-def loginProbeAt (v : Nat) : Option Gen.LoginProbe := Gen.loginProbe.find? (fun r => r.v == v)
+def loginRowsOf (cb sb : List Gen.IdRow) (pr : List Gen.LoginProbe) : List LoginRow :=
+  (zip3 (supportedRows cb) (supportedRows sb) pr).map fun t => ⟨t.1, t.2.1, t.2.2⟩
+
+def loginRows : List LoginRow := loginRowsOf Gen.cbLogin Gen.sbLogin Gen.loginProbe
+
+def loginRowAt (v : Nat) : Option LoginRow := loginRows.find? (fun r => r.v == v)
 
 /-- The version-dependent facts of the login state the models use. -/
 structure LoginProfile where
@@ -271,7 +273,7 @@ structure LoginProfile where
   lsId : Nat
   /-- `EncryptionResponsePacket.get_id`, `PluginResponsePacket.get_id` (`LoginWire.Ids`). -/
   ids : LoginWire.Ids
-  /-- Is a plugin response registered (and a plugin request decodable). -/
+  /-- Is a plugin response registered and a plugin request decodable. -/
   plugin : Bool
   /-- Clientbound ids by reaction: disconnect, encryption request, login success, set compression,
   login plugin request. -/
@@ -280,24 +282,100 @@ structure LoginProfile where
   successCb : Nat
   setCompCb : Nat
   plugReqCb : Option Nat
-  /-- `LoginSuccessPacket`: the UUID is a 16-byte `UUID` (from 707 on) rather than a `String`. -/
+  /-- `LoginSuccessPacket.read` takes the UUID as 16 bytes (from 707 on) rather than a `String`. -/
   uuidBinary : Bool
 deriving Repr, DecidableEq
 
-def LoginFacts.cbLayout (f : LoginFacts) (cls : String) : Option Layout :=
-  (f.cbLays.lookup cls).bind id
+/-- Which UUID format the real `LoginSuccessPacket.read` accepted. -/
+def uuidOfProbe (pr : Gen.LoginProbe) : Option Bool :=
+  if pr.successKind = 1 then some true else if pr.successKind = 0 then some false else none
 
-def LoginFacts.sbLayout (f : LoginFacts) (cls : String) : Option Layout :=
-  (f.sbLays.lookup cls).bind id
-
-/-- `LoginSuccessPacket.get_definition`: which of its two layouts. -/
-def uuidBinaryOf (l : Layout) : Option Bool :=
-  if l = [("UUID", .uuid), ("Username", .string)] then some true
-  else if l = [("UUID", .string), ("Username", .string)] then some false
+/-- The login profile one row determines. -/
+def loginProfileOfRow (names : List (String × String)) (r : LoginRow) : Option LoginProfile := do
+  let disc ← dispatchIn r.cb.2.2 names "disconnect"
+  let encReq ← dispatchIn r.cb.2.2 names "encryption request"
+  let succ ← dispatchIn r.cb.2.2 names "login success"
+  let setc ← dispatchIn r.cb.2.2 names "set compression"
+  let plugReq := dispatchIn r.cb.2.2 names "login plugin request"
+  let ls ← idIn r.sb.2.2 "LoginStartPacket"
+  let enc ← idIn r.sb.2.2 "EncryptionResponsePacket"
+  let plug := idIn r.sb.2.2 "PluginResponsePacket"
+  let uuid ← uuidOfProbe r.pr
+  if r.sb.1 = r.v ∧ r.pr.v = r.v ∧ r.cb.2.1 = true ∧ r.sb.2.1 = true ∧
+      (namedIn r.cb.2.2 names "login plugin request" = [] ∨ plugReq.isSome) ∧
+      plugReq.isSome = plug.isSome then
+    some { lsId := ls, ids := ⟨enc, plug.getD r.pr.plugRespId⟩, plugin := plug.isSome,
+           discCb := disc.2, encReqCb := encReq.2, successCb := succ.2, setCompCb := setc.2,
+           plugReqCb := plugReq.map (·.2), uuidBinary := uuid }
   else none
 
-/-- The layouts the login models hard-code (`LoginWire.fieldsOf`/`decodeEncResp`, `HsWire.writePkt`
-and the pre-parsed `LoginEv`s). -/
+/-- Version ↦ login profile. -/
+def loginProfileOf (v : Nat) : Option LoginProfile :=
+  (loginRowAt v).bind (loginProfileOfRow Gen.cbLoginNames)
+
+/-- Version ↦ the parameters of `Model/LoginWire.lean` and `Model/HandshakeWire.lean`. -/
+def idsAt (v : Nat) : Option LoginWire.Ids := (loginProfileOf v).map (·.ids)
+def lsIdAt (v : Nat) : Option Nat := (loginProfileOf v).map (·.lsId)
+
+/-- The three numberings of the login packets: before 385 (no plugin packets), the 1.13 snapshots
+385–390 (plugin packets inserted at id 0), and from 391 on (plugin packets appended). -/
+def loginShapeOk (L : LoginProfile) : Bool :=
+  if L.plugin && L.lsId == 0 then
+    L.ids == ⟨1, 2⟩ && L.discCb == 0 && L.encReqCb == 1 && L.successCb == 2 &&
+      L.setCompCb == 3 && L.plugReqCb == some 4
+  else if L.plugin then
+    L.lsId == 1 && L.ids == ⟨2, 0⟩ && L.discCb == 1 && L.encReqCb == 2 && L.successCb == 3 &&
+      L.setCompCb == 4 && L.plugReqCb == some 0
+  else
+    L.lsId == 0 && L.ids.encResp == 1 && L.discCb == 0 && L.encReqCb == 1 &&
+      L.successCb == 2 && L.setCompCb == 3 && L.plugReqCb == none
+
+/-- What the real login reactor did is what the profile says. -/
+def loginBehaviourOk (L : LoginProfile) (pr : Gen.LoginProbe) : Bool :=
+  pr.lsId == L.lsId && pr.discCb == L.discCb && pr.encReqCb == L.encReqCb &&
+    pr.successCb == L.successCb && pr.setCompCb == L.setCompCb && pr.plugReqCb == L.plugReqCb &&
+    pr.encResp == L.ids.encResp && pr.encKind == 1 && pr.plugRespId == L.ids.plugResp &&
+    pr.plugReact == (if L.plugin then some L.ids.plugResp else none) &&
+    pr.plugKind == (if L.plugin then 1 else 0) && pr.setCompKind == 1
+
+/-- The ids in use are pairwise distinct and carried by one class each. -/
+def loginDistinct (r : LoginRow) (L : LoginProfile) : Bool :=
+  L.ids.encResp != L.ids.plugResp && L.lsId != L.ids.encResp &&
+    (!L.plugin || L.lsId != L.ids.plugResp) &&
+    countId r.sb.2.2 L.lsId == 1 && countId r.sb.2.2 L.ids.encResp == 1 &&
+    (!L.plugin || countId r.sb.2.2 L.ids.plugResp == 1) &&
+    countId r.cb.2.2 L.discCb == 1 && countId r.cb.2.2 L.encReqCb == 1 &&
+    countId r.cb.2.2 L.successCb == 1 && countId r.cb.2.2 L.setCompCb == 1 &&
+    (L.plugReqCb.all fun i => countId r.cb.2.2 i == 1) && decide (L.lsId < 2 ^ 32)
+
+def loginRowOk (names : List (String × String)) (r : LoginRow) : Bool :=
+  match loginProfileOfRow names r with
+  | some L => loginShapeOk L && loginBehaviourOk L r.pr && loginDistinct r L
+  | none => false
+
+/-- The switch points of the login state: plugin packets from 385 on, the final numbering from 391
+on, the binary UUID from 707 on. -/
+def loginSwitchesOk (rows : List LoginRow) : Bool :=
+  let vs := rows.map (·.v)
+  stepUp vs (rows.map fun r => r.pr.plugReqCb.isSome) 385 &&
+    stepUp vs (rows.map fun r => r.pr.plugReqCb.isSome && r.pr.lsId == 0) 391 &&
+    stepUp vs (rows.map fun r => r.pr.successKind == 1) 707
+
+def loginTablesOk (T : Tables) (names : List (String × String)) (rows : List LoginRow) : Bool :=
+  rows.map (·.v) == T.supportedProtocols && rows.all (loginRowOk names) && loginSwitchesOk rows
+
+/-! ### the declared layouts (`get_definition`) behind the hand-written field codecs -/
+
+/-- The six fields every clientbound position-and-look has. -/
+def posBase : Layout :=
+  [("x", .int .f64), ("y", .int .f64), ("z", .int .f64), ("yaw", .int .f32), ("pitch", .int .f32),
+   ("flags", .int .i8)]
+
+def discLayout : Layout := [("json_data", .string)]
+def echoLayout : Layout :=
+  [("x", .int .f64), ("feet_y", .int .f64), ("z", .int .f64), ("yaw", .int .f32),
+   ("pitch", .int .f32), ("on_ground", .bool)]
+def tcLayout : Layout := [("teleport_id", .varint)]
 def encRespLayout : Layout := [("shared_secret", .bytesVarint), ("verify_token", .bytesVarint)]
 def encReqLayout : Layout :=
   [("server_id", .string), ("public_key", .bytesVarint), ("verify_token", .bytesVarint)]
@@ -305,135 +383,70 @@ def loginStartLayout : Layout := [("name", .string)]
 def setCompLayout : Layout := [("threshold", .varint)]
 def plugReqLayout : Layout := [("message_id", .varint), ("channel", .string), ("data", .trailing)]
 
-/-- The login profile the tables (and, for the id of an unregistered plugin response, the probe)
-determine. -/
-def loginProfileOfFacts (f : LoginFacts) (plugRespWire : Nat) : Option LoginProfile := do
-  let disc ← dispatchIn f.cb f.names "disconnect"
-  let encReq ← dispatchIn f.cb f.names "encryption request"
-  let succ ← dispatchIn f.cb f.names "login success"
-  let setc ← dispatchIn f.cb f.names "set compression"
-  let plugReq := dispatchIn f.cb f.names "login plugin request"
-  let ls ← idIn f.sb "LoginStartPacket"
-  let enc ← idIn f.sb "EncryptionResponsePacket"
-  let plug := idIn f.sb "PluginResponsePacket"
-  let uuid ← (f.cbLayout succ.1).bind uuidBinaryOf
-  if f.cbLayout disc.1 = some discLayout ∧ f.cbLayout encReq.1 = some encReqLayout ∧
-      f.cbLayout setc.1 = some setCompLayout ∧
-      (∀ c ∈ plugReq, f.cbLayout c.1 = some plugReqLayout) ∧
-      f.sbLayout "LoginStartPacket" = some loginStartLayout ∧
-      f.sbLayout "EncryptionResponsePacket" = some encRespLayout ∧
-      (namedIn f.cb f.names "login plugin request" = [] ∨ plugReq.isSome) ∧
-      plugReq.isSome = plug.isSome then
-    some { lsId := ls, ids := ⟨enc, plug.getD plugRespWire⟩, plugin := plug.isSome,
-           discCb := disc.2, encReqCb := encReq.2, successCb := succ.2, setCompCb := setc.2,
-           plugReqCb := plugReq.map (·.2), uuidBinary := uuid }
-  else none
+/-- The known versions before `b` / from `b` on, in chronological order. -/
+def before (K : List Nat) (b : Nat) : List Nat := K.takeWhile (· != b)
+def since (K : List Nat) (b : Nat) : List Nat := K.dropWhile (· != b)
 
-/-- Version ↦ login profile. -/
-def loginProfileOf (v : Nat) : Option LoginProfile := do
-  let f ← loginFactsAt v
-  let pr ← loginProbeAt v
-  loginProfileOfFacts f pr.plugRespId
+/-- The layout variants the play and login models rely on, as the extractor lists them (each with
+the chronological list of the versions using it): one layout throughout for the fixed packets, and
+for the four version-dependent ones a switch exactly at 339 (both keep-alive classes), at 107 and
+755 (position-and-look) and at 707 (login success); teleport confirm exists from 107 on, the login
+plugin request from 385 on (its response has a hand-written codec). -/
+def layoutVariantsOk (K : List Nat) : Bool :=
+  let ka : List (Option Layout × List Nat) :=
+    [(some [("keep_alive_id", .varint)], before K 339), (some [("keep_alive_id", .int .i64)], since K 339)]
+  Gen.cbPlayLayouts.lookup "KeepAlivePacket" == some ka &&
+  Gen.sbPlayLayouts.lookup "KeepAlivePacket" == some ka &&
+  Gen.cbPlayLayouts.lookup "PlayerPositionAndLookPacket" ==
+    some [(some posBase, before K 107),
+          (some (posBase ++ [("teleport_id", .varint)]), before (since K 107) 755),
+          (some (posBase ++ [("teleport_id", .varint), ("dismount_vehicle", .bool)]),
+            since (since K 107) 755)] &&
+  Gen.cbPlayLayouts.lookup "DisconnectPacket" == some [(some discLayout, K)] &&
+  Gen.sbPlayLayouts.lookup "PositionAndLookPacket" == some [(some echoLayout, K)] &&
+  Gen.sbPlayLayouts.lookup "TeleportConfirmPacket" == some [(some tcLayout, since K 107)] &&
+  Gen.cbLoginLayouts.lookup "DisconnectPacket" == some [(some discLayout, K)] &&
+  Gen.cbLoginLayouts.lookup "EncryptionRequestPacket" == some [(some encReqLayout, K)] &&
+  Gen.cbLoginLayouts.lookup "SetCompressionPacket" == some [(some setCompLayout, K)] &&
+  Gen.cbLoginLayouts.lookup "PluginRequestPacket" == some [(some plugReqLayout, since K 385)] &&
+  Gen.cbLoginLayouts.lookup "LoginSuccessPacket" ==
+    some [(some [("UUID", .string), ("Username", .string)], before K 707),
+          (some [("UUID", .uuid), ("Username", .string)], since K 707)] &&
+  Gen.sbLoginLayouts.lookup "LoginStartPacket" == some [(some loginStartLayout, K)] &&
+  Gen.sbLoginLayouts.lookup "EncryptionResponsePacket" == some [(some encRespLayout, K)] &&
+  Gen.sbLoginLayouts.lookup "PluginResponsePacket" == some [(none, since K 385)]
 
-/-- Version ↦ the parameters of `Model/LoginWire.lean` and `Model/HandshakeWire.lean`. -/
-def idsAt (v : Nat) : Option LoginWire.Ids := (loginProfileOf v).map (·.ids)
-def lsIdAt (v : Nat) : Option Nat := (loginProfileOf v).map (·.lsId)
+/-! ### models of three seeded code changes (for the negative witnesses)
 
-/-- The closed form of the login ids: the two renumberings at 385 and 391 and the UUID switch at
-707, in terms of the model of `protocol_later_eq` on the version tables `T`. -/
-def loginShapeOk (T : Tables) (v : Nat) (L : LoginProfile) : Bool :=
-  match laterEq T v 385, laterEq T v 391, laterEq T v 707 with
-  | .ok a, .ok b, .ok c =>
-    L.plugin == a && L.uuidBinary == c &&
-      (if b then
-        L.lsId == 0 && L.ids == ⟨1, 2⟩ && L.discCb == 0 && L.encReqCb == 1 && L.successCb == 2 &&
-          L.setCompCb == 3 && L.plugReqCb == some 4
-      else if a then
-        L.lsId == 1 && L.ids == ⟨2, 0⟩ && L.discCb == 1 && L.encReqCb == 2 && L.successCb == 3 &&
-          L.setCompCb == 4 && L.plugReqCb == some 0
-      else
-        L.lsId == 0 && L.ids.encResp == 1 && L.discCb == 0 && L.encReqCb == 1 &&
-          L.successCb == 2 && L.setCompCb == 3 && L.plugReqCb == none)
-  | _, _, _ => false
-
-/-- What the real login reactor did is what the profile says. -/
-def loginBehaviourOk (v : Nat) (L : LoginProfile) (pr : Gen.LoginProbe) : Bool :=
-  pr.v == v && pr.lsId == L.lsId && pr.discCb == L.discCb && pr.encReqCb == L.encReqCb &&
-    pr.successCb == L.successCb && pr.setCompCb == L.setCompCb && pr.plugReqCb == L.plugReqCb &&
-    pr.encResp == L.ids.encResp && pr.encKind == 1 && pr.plugRespId == L.ids.plugResp &&
-    pr.plugReact == (if L.plugin then some L.ids.plugResp else none) &&
-    pr.plugKind == (if L.plugin then 1 else 0) && pr.successKind == 1 && pr.setCompKind == 1
-
-/-- The ids in use are pairwise distinct and carried by one class each. -/
-def loginDistinct (f : LoginFacts) (L : LoginProfile) : Bool :=
-  L.ids.encResp != L.ids.plugResp && L.lsId != L.ids.encResp &&
-    (!L.plugin || L.lsId != L.ids.plugResp) &&
-    countId f.sb L.lsId == 1 && countId f.sb L.ids.encResp == 1 &&
-    (!L.plugin || countId f.sb L.ids.plugResp == 1) &&
-    countId f.cb L.discCb == 1 && countId f.cb L.encReqCb == 1 && countId f.cb L.successCb == 1 &&
-    countId f.cb L.setCompCb == 1 && (L.plugReqCb.all fun i => countId f.cb i == 1) &&
-    decide (L.lsId < 2 ^ 32)
-
-def loginOk (T : Tables) (v : Nat) (f : LoginFacts) (pr : Gen.LoginProbe) (L : LoginProfile) :
-    Bool :=
-  loginShapeOk T v L && loginBehaviourOk v L pr && loginDistinct f L
-
-def loginCheck (v : Nat) : Bool :=
-  match loginFactsAt v, loginProbeAt v with
-  | some f, some pr =>
-    match loginProfileOfFacts f pr.plugRespId with
-    | some L => loginOk liveTables v f pr L
-    | none => false
-  | _, _ => false
-
-/-! ### models of two seeded code changes (for the negative witnesses)
-
-Both are what the generators emit when run on a copy of /repo with the change applied (checked with
-`PYCRAFT_REPO=<copy> harness/gen/versionprofiles.py`, resp. `extract.py`): every other row and table
-entry is unchanged. -/
+Each is what the generator emits when run on a copy of /repo with the change applied (checked with
+`PYCRAFT_REPO=<copy> harness/gen/versionprofiles.py`): every other row is unchanged. -/
 
 /-- `connection.py:814` `protocol_later_eq(107)` → `(108)`: under protocol 107 the packet is still
 read with its teleport id, but the reactor answers with the position echo (id 0x0D). -/
-def probeReactor108 (pr : Gen.PlayProbe) : Gen.PlayProbe :=
-  if pr.v = 107 then { pr with ackSb := 13, ackKind := 0 } else pr
+def reactor108 (r : PlayRow) : PlayRow :=
+  if r.pr.v = 107 then { r with pr := { r.pr with ackSb := 13, ackKind := 0 } } else r
 
 /-- `keep_alive_packet.py:11` `protocol_later_eq(339)` → `(340)`: under protocol 339 both
-keep-alive classes get the VarInt layout, are read and written as VarInts. -/
-def factsKeepAlive340 (v : Nat) (f : PlayFacts) : PlayFacts :=
-  if v = 339 then
-    { f with
-      cbLays := f.cbLays.map fun e =>
-        if e.1 = "KeepAlivePacket" then (e.1, some [("keep_alive_id", .varint)]) else e
-      sbLays := f.sbLays.map fun e =>
-        if e.1 = "KeepAlivePacket" then (e.1, some [("keep_alive_id", .varint)]) else e }
-  else f
+keep-alive classes get the VarInt layout — ids are read and written as VarInts. -/
+def keepAlive340 (r : PlayRow) : PlayRow :=
+  if r.pr.v = 339 then { r with pr := { r.pr with kaRead := 0, kaWrite := 0 } } else r
 
-def probeKeepAlive340 (pr : Gen.PlayProbe) : Gen.PlayProbe :=
-  if pr.v = 339 then { pr with kaRead := 0, kaWrite := 0 } else pr
+/-- `player_position_and_look_packet.py:36` `protocol_later_eq(107)` → `(108)` (the packet's test
+only): under 107 no teleport id is read, and the reactor's `packet.teleport_id` raises
+`AttributeError` — nothing is written. -/
+def layout108 (r : PlayRow) : PlayRow :=
+  if r.pr.v = 107 then { r with pr := { r.pr with posRead := 0, ackSb := 16777215, ackKind := 2 } }
+  else r
 
 /-- `serverbound/login/__init__.py` `EncryptionResponsePacket.get_id`: `0x01 if
 protocol_later_eq(391)` → `0x02`: from 391 on the encryption response gets the plugin response's
 id. -/
-def loginFactsEnc2 (T : Tables) (v : Nat) (f : LoginFacts) : LoginFacts :=
-  if isOk (laterEq T v 391) true then
-    { f with sb := f.sb.map fun e => if e.1 = "EncryptionResponsePacket" then (e.1, some 2) else e }
-  else f
-
-/-- The per-version check on explicitly given (possibly changed) tables. -/
-def playCheckWith (v : Nat) (f : Option PlayFacts) (pr : Option Gen.PlayProbe) : Bool :=
-  match f, pr with
-  | some f, some pr =>
-    match profileOfFacts f with
-    | some P => playOk liveTables v f pr P
-    | none => false
-  | _, _ => false
-
-def loginCheckWith (v : Nat) (f : Option LoginFacts) (pr : Option Gen.LoginProbe) : Bool :=
-  match f, pr with
-  | some f, some pr =>
-    match loginProfileOfFacts f pr.plugRespId with
-    | some L => loginOk liveTables v f pr L
-    | none => false
-  | _, _ => false
+def encResp2 (r : LoginRow) : LoginRow :=
+  if r.pr.plugReqCb.isSome ∧ r.pr.lsId = 0 then
+    { r with
+      sb := (r.sb.1, r.sb.2.1, r.sb.2.2.map fun e =>
+        if e.1 = "EncryptionResponsePacket" then (e.1, some 2) else e)
+      pr := { r.pr with encResp := 2 } }
+  else r
 
 end PyCraft.VersionProfiles
